@@ -11,8 +11,18 @@ PROP = "C36"
 SPEC = "Rewrite"
 SYSCALLS = ("openat,open,creat,write,pwrite64,pwritev,pwritev2,writev,close,fchmodat,fchmodat2,fchmod,chmod,rename,renameat,"
             "renameat2,unlink,unlinkat,link,linkat,symlink,symlinkat,ftruncate,truncate,fsync,fdatasync,copy_file_range,sendfile,mkdir,mkdirat,rmdir")
-TARGET = "messages_xx.txt"
-BYSTANDER = "messages_yy.txt"
+TARGET = "d/messages_xx.txt"          # names are relative to the scratch root of a run
+BYSTANDER = "d/messages_yy.txt"
+KINDS = ("file", "link-same-dir", "link-elsewhere")
+LINKTARGET = {"link-same-dir": "d/shared_xx.txt", "link-elsewhere": "e/shared_xx.txt"}
+
+
+def start_listing(kind, orig):
+    """the initial tree: the message file is a regular file, or a symbolic link to a file next to it / elsewhere"""
+    by = {"n": BYSTANDER, "k": "file", "c": "[other]\nb=1\na=2\n"}
+    if kind == "file":
+        return [{"n": TARGET, "k": "file", "c": orig}, by]
+    return [{"n": TARGET, "k": "link", "c": LINKTARGET[kind]}, {"n": LINKTARGET[kind], "k": "file", "c": orig}, by]
 
 
 # ------------------------------------------------------------------ inputs (files that need a rewrite, no warnings)
@@ -63,10 +73,7 @@ def parse_strace(path, root, cwd):
             p = os.path.normpath(os.path.join(cwd, p))
         p = os.path.normpath(p)
         if p.startswith(root + "/"):
-            rel = p[len(root) + 1:]
-            if "/" in rel:
-                raise vf.NoVerdict("operation on a nested path is not modelled: " + p)
-            return rel
+            return p[len(root) + 1:]
         return None
 
     for c in calls:
@@ -87,7 +94,7 @@ def parse_strace(path, root, cwd):
                 continue
             tracked.add(ret)
             ops.append({"ev": "open", "name": n, "fd": ret, "creat": "O_CREAT" in fl, "excl": "O_EXCL" in fl,
-                        "trunc": "O_TRUNC" in fl, "wr": ("O_WRONLY" in fl or "O_RDWR" in fl)})
+                        "trunc": "O_TRUNC" in fl, "nofollow": "O_NOFOLLOW" in fl, "wr": ("O_WRONLY" in fl or "O_RDWR" in fl)})
         elif name == "write":
             fd = int(args.split(",", 1)[0])
             if fd not in tracked:
@@ -144,28 +151,48 @@ def parse_strace(path, root, cwd):
             fds = [int(x) for x in re.findall(r"(?:^|,\s*)(\d+)(?=,)", args)[:2]]
             if any(fd in tracked for fd in fds):
                 raise vf.NoVerdict("unmodelled write-like call on a tracked file: " + c[:200])
-        elif name in ("symlink", "symlinkat", "mkdir", "mkdirat", "rmdir"):
+        elif name in ("symlink", "symlinkat"):
+            n = inside(strs[1]) if len(strs) > 1 else None
+            if n is not None:
+                t = strs[0] if strs[0].startswith("/") else os.path.join(os.path.dirname(os.path.join(root, n)), strs[0])
+                t = inside(t)
+                ops.append({"ev": "symlink", "target": t if t is not None else "<outside>", "name": n})
+        elif name in ("mkdir", "mkdirat", "rmdir"):
             if any(inside(s) is not None for s in strs):
                 raise vf.NoVerdict("unmodelled call in the scratch directory: " + c[:200])
     return ops
 
 
-def snapshot(d):
+def snapshot(root):
+    """the tree under root: regular files with their content, symbolic links with their (root-relative) target"""
     out = []
-    for n in sorted(os.listdir(d)):
-        p = os.path.join(d, n)
-        if os.path.isfile(p):
-            out.append({"n": n, "c": open(p, "rb").read().decode("latin-1")})
-        else:
-            out.append({"n": n, "c": "<not a regular file>"})
-    return out
+    for dp, dn, fn in os.walk(root):
+        for n in sorted(dn + fn):
+            p = os.path.join(dp, n)
+            rel = os.path.relpath(p, root)
+            if os.path.islink(p):
+                t = os.readlink(p)
+                t = t if t.startswith("/") else os.path.join(os.path.dirname(p), t)
+                t = os.path.normpath(t)
+                out.append({"n": rel, "k": "link", "c": os.path.relpath(t, root) if t.startswith(root + "/") else "<outside>"})
+            elif os.path.isfile(p):
+                out.append({"n": rel, "k": "file", "c": open(p, "rb").read().decode("latin-1")})
+            elif not os.path.isdir(p):
+                out.append({"n": rel, "k": "file", "c": "<not a regular file>"})
+    return sorted(out, key=lambda e: e["n"])
 
 
-def materialise(d, listing):
-    os.makedirs(d)
+def materialise(root, listing):
+    os.makedirs(os.path.join(root, "d"))
+    os.makedirs(os.path.join(root, "e"))
     for e in listing:
-        with open(os.path.join(d, e["n"]), "wb") as f:
-            f.write(e["c"].encode("latin-1"))
+        p = os.path.join(root, e["n"])
+        os.makedirs(os.path.dirname(p), exist_ok=True)
+        if e["k"] == "link":
+            os.symlink(os.path.relpath(os.path.join(root, e["c"]), os.path.dirname(p)), p)
+        else:
+            with open(p, "wb") as f:
+                f.write(e["c"].encode("latin-1"))
 
 
 class Runner:
@@ -224,7 +251,9 @@ def run():
         "a crash is possible between any two file-system calls of the process and in the middle of a write (every recorded write is presented as two halves)",
         "'a later successful run leaves no temporary or backup files behind' is read as: after that run the directory holds only the files it held before the first rewrite started",
         "file-system calls are recorded with strace and replayed through the generic directory model of FsModel.tla; at every real crash / exit the model directory must equal the real one",
-        "file modes are not part of the statement and are not modelled"]
+        "the content clause is judged right after every crash AND after every later run that started from a crash-safe state (read through symbolic links)",
+        "initial trees: the message file is a regular file, a symbolic link to a file in the same directory, or a symbolic link to a file in another directory",
+        "file modes are not part of the statement and are not modelled; hard links are modelled as copies"]
     with vf.scratch() as sd:
         # 1. design: the single-rename protocol satisfies C36 under up to 3 consecutive crashes
         # 2. negative controls: the two-rename protocol must violate both clauses on the model
@@ -254,23 +283,31 @@ def run():
             return evs
 
         batch = []
-        for iname, orig in inputs(thorough, vf.SEED):
-            keep = [TARGET, BYSTANDER]
-            start = [{"n": TARGET, "c": orig}, {"n": BYSTANDER, "c": "[other]\nb=1\na=2\n"}]
+        def through(root):
+            """what a reader of the path gets (symbolic links followed), None if it cannot be read"""
+            try:
+                return open(os.path.join(root, TARGET), "rb").read().decode("latin-1")
+            except OSError:
+                return None
+
+        for iname, kind, orig in [(i_, k_, o_) for i_, o_ in inputs(thorough, vf.SEED) for k_ in KINDS]:
+            start = start_listing(kind, orig)
+            keep = [e["n"] for e in start]
+            tag = "input=%s kind=%s" % (iname, kind)
             # base run (uncrashed): defines the complete formatted content, lists the hook points
             d = rn.newdir(); materialise(d, start)
             clog = os.path.join(sd, "crashpoints.log")
             if os.path.exists(clog):
                 os.remove(clog)
             rc, ops, out = rn.go(d, crash_log=clog)
-            final = {e["n"]: e["c"] for e in snapshot(d)}
-            if rc != 0 or final.get(TARGET) in (None, orig):
-                raise vf.NoVerdict("base run on input %s did not rewrite the file (rc=%s): %s" % (iname, rc, out[-300:]))
-            common = {"path": TARGET, "orig": orig, "new": final[TARGET], "keep": keep, "input": iname}
-            batch += mkrun("input=%s uncrashed run" % iname, d, start, common, False, True, ops, "Exit", rc)
+            new = through(d)
+            if rc != 0 or new in (None, orig):
+                raise vf.NoVerdict("base run (%s) did not rewrite the file (rc=%s): %s" % (tag, rc, out[-300:]))
+            common = {"path": TARGET, "orig": orig, "new": new, "keep": keep, "input": iname, "kind": kind}
+            batch += mkrun("%s uncrashed run" % tag, d, start, common, False, True, ops, "Exit", rc)
             if not any(o["ev"] in ("rename", "write") for o in ops):
                 raise vf.NoVerdict("no rename/write recorded for the base run: recording is not working")
-            if iname == "small":
+            if iname == "small" and kind == "file":
                 chk.sample({"kind": "recorded base run (operations)", "ops": [{k: (v if k != "data" else "<%d bytes>" % len(v)) for k, v in o.items()} for o in ops]})
             points = []
             if os.path.exists(clog):
@@ -284,11 +321,11 @@ def run():
                 rc, ops, out = rn.go(d, crash_at=k)
                 if rc not in (-9, 137):
                     raise vf.NoVerdict("crash point %d (%s) did not stop the process (rc=%s)" % (k, nm, rc))
-                batch += mkrun("input=%s real crash at hook point %d (%s)" % (iname, k, nm), d, start, common, False, False, ops, "Crash", rc)
+                batch += mkrun("%s real crash at hook point %d (%s)" % (tag, k, nm), d, start, common, False, False, ops, "Crash", rc)
                 total["real_crashes"] += 1
                 left = snapshot(d)
                 rc, ops, out = rn.go(d)
-                batch += mkrun("input=%s later run after real crash at hook point %d (%s)" % (iname, k, nm), d, left, common, True, False, ops, "Exit", rc)
+                batch += mkrun("%s later run after real crash at hook point %d (%s)" % (tag, k, nm), d, left, common, True, False, ops, "Exit", rc)
                 total["later_runs"] += 1
         # 4. binding self-test rides in the first batch: a copy of the first base run with its last content-changing operation (rename/write/unlink/link) dropped and a copy
         #    with a corrupted directory snapshot must both be reported as model/real mismatches
@@ -322,14 +359,15 @@ def run():
                 evs = info["events"]
                 what = {"simulated-crash": "process stopping before recorded operation #%d leaves the path neither complete original nor complete formatted",
                         "real-crash": "real process killed at a crash point (event #%d) leaves the path neither complete original nor complete formatted",
-                        "later-run": "a later successful run (ending at event #%d) leaves temporary/backup files behind"}[b["kind"]] % b["idx"]
+                        "later-run": "a later successful run (ending at event #%d) leaves temporary/backup files behind",
+                        "later-run-content": "after a later run (ending at event #%d) that started from a crash-safe state the path holds neither the complete original nor the complete formatted content"}[b["kind"]] % b["idx"]
                 short = [dict(e, data="<%d bytes>" % len(e["data"])) if "data" in e else dict(e) for e in evs]
                 for e in short:
                     for k2 in ("orig", "new"):
                         if k2 in e and len(e[k2]) > 300:
                             e[k2] = e[k2][:300] + "...(%d bytes)" % len(e[k2])
                     if "dir" in e:
-                        e["dir"] = [{"n": x["n"], "c": x["c"] if len(x["c"]) <= 300 else x["c"][:300] + "...(%d bytes)" % len(x["c"])} for x in e["dir"]]
+                        e["dir"] = [{"n": x["n"], "k": x["k"], "c": x["c"] if len(x["c"]) <= 300 else x["c"][:300] + "...(%d bytes)" % len(x["c"])} for x in e["dir"]]
                 chk.violation(b["key"], "%s [%s]" % (what, info["desc"]),
                               {"run": info["desc"], "trace_line_in_batch": b["idx"], "events_of_run": short[:60]})
             nxt = []
@@ -339,7 +377,7 @@ def run():
                     continue
                 common = runinfo[cs["run"]]["common"]
                 listing = sorted(cs["dir"], key=lambda e: e["n"])
-                sig = json.dumps([common["input"], listing], sort_keys=True)
+                sig = json.dumps([common["input"], common["kind"], listing], sort_keys=True)
                 if sig in seen:
                     continue
                 seen.add(sig)
